@@ -19,6 +19,12 @@
 //! the retried attempt arrives on a LIVE connection of the same node and the caller gets that node's rows; with a
 //! pool of 1 success (new connection or next node) or an error are accepted, a hang is not.
 //!
+//! Third part ("sharded"): one ScyllaDB-like node with N = 2..4 shards, one pool connection per shard (shard-aware
+//! port); new connections are parked at accept (the pool cannot refill), the connections of every proper and improper
+//! non-empty subset of shards survive an RST of the others, and a request routed to every shard s is issued once the
+//! pool has evicted the dead ones (it has as many replacement connections pending as were killed). Oracle: the request
+//! is served with its own rows over a surviving connection; no panic, no "no connection" error.
+//!
 //! Oracle (holds under every client schedule):
 //!  * every client future completes within the liveness deadline (20 s where a correct driver needs milliseconds,
 //!    or interval+timeout for the silent node);
@@ -664,7 +670,7 @@ async fn drive_same(case: &SameCase, w: &World, gate: &Gate) -> Result<Obs, Stri
 fn run_same_blocking(case: &SameCase) -> Result<Obs, String> {
     // the policy's decision waits on a condvar inside a worker thread: leave workers for the mock and the pool
     let rt = runtime_n(2 + case.k.max(2));
-    let r = rt.block_on(run_same(case));
+    let r = guarded(|| rt.block_on(run_same(case)));
     rt.shutdown_timeout(Duration::from_millis(200));
     r
 }
@@ -686,9 +692,169 @@ fn same_cases(thorough: bool) -> Vec<SameCase> {
     out
 }
 
+// ------------------------------------------------------------------------------------------------
+// sharded node: surviving-shard subsets x requested shard
+// ------------------------------------------------------------------------------------------------
+
+#[derive(Clone, Debug)]
+struct ShardCase {
+    nr: u16,
+    /// bit i = the connection of shard i survives
+    alive: u32,
+    requested: u16,
+}
+impl ShardCase {
+    fn json(&self) -> Value {
+        json!({"sharded": true, "nr_shards": self.nr, "alive_mask": self.alive, "alive_shards": (0..self.nr).filter(|i| self.alive & (1 << i) != 0).collect::<Vec<_>>(), "requested_shard": self.requested})
+    }
+    fn from_json(v: &Value) -> ShardCase {
+        ShardCase { nr: v["nr_shards"].as_u64().unwrap_or(2) as u16, alive: v["alive_mask"].as_u64().unwrap_or(1) as u32, requested: v["requested_shard"].as_u64().unwrap_or(0) as u16 }
+    }
+}
+
+async fn run_sharded(case: &ShardCase) -> Result<Obs, String> {
+    let w = World::new(&WorldCfg { shards: Some(case.nr), ..WorldCfg::new(1) }).await?;
+    let r = match drive_sharded(case, &w).await {
+        Ok(obs) => {
+            let unexpected = w.cluster.unexpected();
+            if !unexpected.is_empty() { Err(format!("mock saw an unscripted request: {}", unexpected[0].describe())) } else { Ok(obs) }
+        }
+        Err(e) => Err(format!("{e}\n{}", w.cluster.dump_log())),
+    };
+    w.teardown().await;
+    r
+}
+
+async fn drive_sharded(case: &ShardCase, w: &World) -> Result<Obs, String> {
+    let cluster = &w.cluster;
+    let nr = case.nr;
+    let mut obs = Obs::default();
+    let pool_conns = |cs: &[mockcluster::ConnInfo]| -> Vec<(u64, u16)> { cs.iter().filter(|c| c.ready && c.open && c.registered.is_empty()).filter_map(|c| c.shard.map(|s| (c.id, s))).collect() };
+    // ---- the pool is complete: exactly one ready pool connection per shard (excess ones from the plain port closed)
+    cluster
+        .wait_conns("one pool connection per shard", LIVENESS, |cs| {
+            let pc = pool_conns(cs);
+            (pc.len() == nr as usize && (0..nr).all(|s| pc.iter().any(|(_, x)| *x == s))).then_some(())
+        })
+        .await?;
+    // ---- one bound value per shard, learnt by observation (the driver's token-aware routing with every shard connected);
+    //      also proves the driver has registered every pool connection
+    let mut value_of_shard: Vec<Option<i32>> = vec![None; nr as usize];
+    let mut v = FENCE_BASE;
+    while value_of_shard.iter().any(|x| x.is_none()) {
+        let from = cluster.log_len();
+        w.fence(v).await?;
+        let e = cluster.wait_entry("discovery frame", from, |e| entry_value(e) == Some(v)).await?;
+        let s = e.shard.ok_or("frame on a connection without a shard")? as usize;
+        if value_of_shard[s].is_none() {
+            value_of_shard[s] = Some(v);
+        }
+        v += 1;
+        if v > FENCE_BASE + 2000 {
+            return Err(format!("no bound value found for some shard: {value_of_shard:?}"));
+        }
+    }
+    // ---- no refill from now on: new connections stay parked at accept
+    cluster.hold(|a| a.is_accept());
+    let conns = pool_conns(&cluster.conns());
+    let doomed: Vec<(u64, u16)> = conns.iter().copied().filter(|(_, s)| case.alive & (1 << s) == 0).collect();
+    for (id, _) in &doomed {
+        if !cluster.close_conn(*id, CloseKind::Rst).await {
+            return Err(format!("connection {id} was already gone"));
+        }
+    }
+    obs.trace.push(format!("RST the connections of shards {:?}", doomed.iter().map(|(_, s)| *s).collect::<Vec<_>>()));
+    // ---- the pool has evicted every dead connection: it has as many replacements pending as connections died
+    if !doomed.is_empty() {
+        cluster.wait_held_count(&format!("{} replacement connections pending at accept", doomed.len()), doomed.len(), |a| a.is_accept()).await?;
+    }
+    // ---- the request routed to the requested shard is served over a surviving connection
+    let value = value_of_shard[case.requested as usize].unwrap();
+    let mut last_err = None;
+    let mut served = false;
+    for attempt in 0..3 {
+        let from = cluster.log_len();
+        let o = match finish(tokio::spawn(w.call(value, true))).await {
+            Ok(o) => o,
+            Err(()) => {
+                obs.v("c10-mock:caller-hang", format!("a request routed to shard {} did not complete within {LIVENESS:?} (surviving shards mask {:#b})", case.requested, case.alive));
+                return Ok(obs);
+            }
+        };
+        match o {
+            Ok(rows) => {
+                if rows != expected_rows(0, value) {
+                    obs.v("c10-mock:foreign-or-partial-rows", format!("request completed Ok with rows {rows:?}"));
+                }
+                let e = cluster.wait_entry("the served frame", from, |e| entry_value(e) == Some(value)).await?;
+                let s = e.shard.unwrap_or(u16::MAX);
+                if case.alive & (1 << s) == 0 {
+                    return Err(format!("frame arrived on shard {s}, whose connection was reset"));
+                }
+                obs.flag(if s == case.requested { "served_by_the_requested_shard" } else { "served_by_another_surviving_shard" });
+                if attempt > 0 {
+                    obs.flag("served_after_an_attempt_on_a_not_yet_evicted_connection");
+                }
+                served = true;
+                break;
+            }
+            Err(e) if e.contains("abnormally") => {
+                obs.v("c10-mock:panic-choosing-a-connection", format!("a request routed to shard {} of a {nr}-shard node whose surviving pool connections are in shards mask {:#b} panicked instead of using a remaining connection: {e}", case.requested, case.alive));
+                return Ok(obs);
+            }
+            Err(e) => {
+                last_err = Some(e);
+                tokio::task::yield_now().await;
+            }
+        }
+    }
+    if !served {
+        obs.inflight_failed += 1;
+        obs.v("c10-mock:not-served-by-remaining-connections", format!("a request routed to shard {} failed 3 times although shards mask {:#b} still have live pool connections: {}", case.requested, case.alive, last_err.unwrap_or_default()));
+    }
+    Ok(obs)
+}
+
+fn run_sharded_blocking(case: &ShardCase) -> Result<Obs, String> {
+    let rt = runtime();
+    let r = guarded(|| rt.block_on(run_sharded(case)));
+    rt.shutdown_timeout(Duration::from_millis(200));
+    r
+}
+
+/// A panic of driver code on the harness's own thread (session build, prepare: everything the harness awaits without
+/// spawning) is the caller panicking: a verdict, not a crash of the checker. A panic raised by harness or mock code is
+/// a machinery error.
+fn guarded(f: impl FnOnce() -> Result<Obs, String>) -> Result<Obs, String> {
+    match vcore::catch(std::panic::AssertUnwindSafe(f)) {
+        Ok(r) => r,
+        Err(msg) => {
+            let loc = vcore::last_panic_location();
+            if loc.contains("h-mock") || loc.contains("mockcluster") || loc.contains("vcore") {
+                vcore::machinery_error(&format!("harness panic at {loc}: {msg}"));
+            }
+            let mut obs = Obs::default();
+            obs.v("c10-mock:panic-in-the-caller", format!("driver code panicked in the calling task at {}: {msg}", loc.rsplit("/scylla").next().map(|t| format!("scylla{t}")).unwrap_or(loc.clone())));
+            Ok(obs)
+        }
+    }
+}
+
+fn shard_cases() -> Vec<ShardCase> {
+    let mut out = Vec::new();
+    for nr in 2..=4u16 {
+        for alive in 1..(1u32 << nr) {
+            for requested in 0..nr {
+                out.push(ShardCase { nr, alive, requested });
+            }
+        }
+    }
+    out
+}
+
 fn run_blocking(case: &Case) -> Result<Obs, String> {
     let rt = runtime();
-    let r = rt.block_on(run(case));
+    let r = guarded(|| rt.block_on(run(case)));
     rt.shutdown_timeout(Duration::from_millis(200));
     r
 }
@@ -753,9 +919,11 @@ fn cases(thorough: bool) -> Vec<Case> {
 
 fn main() {
     let r = Report::new("C10", "mock", "fault_enumeration", "E-MOCK");
-    std::panic::set_hook(Box::new(|_| {}));
+    if std::env::var("VERIF_PANIC_VERBOSE").is_err() {
+        vcore::quiet_panics();
+    }
     if let Some(case) = r.replay_case() {
-        let res = if case.get("same_target").is_some() { run_same_blocking(&SameCase::from_json(&case)) } else { run_blocking(&Case::from_json(&case)) };
+        let res = if case.get("sharded").is_some() { run_sharded_blocking(&ShardCase::from_json(&case)) } else if case.get("same_target").is_some() { run_same_blocking(&SameCase::from_json(&case)) } else { run_blocking(&Case::from_json(&case)) };
         match res {
             Ok(obs) => {
                 println!("trace: {:?}\nflags: {:?}\ndisturbed: {}", obs.trace, obs.flags, obs.disturbed);
@@ -883,6 +1051,56 @@ fn main() {
             }
         }
     });
+    // ---- third part: sharded node, surviving-shard subsets x requested shard
+    let sharded = if r.args.extra_value("--only-early-raw").is_some() { Vec::new() } else { shard_cases() };
+    vcore::par::for_range(jobs, sharded.len() as u64, |i| {
+        if stop.load(Ordering::Relaxed) {
+            rr.counters.add("cases_skipped_after_first_violation", 1);
+            return;
+        }
+        let case = &sharded[i as usize];
+        let out = match run_sharded_blocking(case) {
+            Err(e) => match run_sharded_blocking(case) {
+                Err(e2) => Err(format!("{e}\n--- again: {e2}")),
+                ok => {
+                    rr.counters.add("stalls_not_reproduced", 1);
+                    ok
+                }
+            },
+            ok => ok,
+        };
+        match out {
+            Ok(obs) => {
+                rr.eval(1);
+                if case.alive & (1 << case.requested) == 0 {
+                    rr.nontrivial(1);
+                    rr.counters.add("sharded_requested_shard_has_no_connection", 1);
+                }
+                rr.counters.add(&format!("sharded_{}_shards", case.nr), 1);
+                for f in &obs.flags {
+                    rr.counters.add(&format!("sharded_{f}"), 1);
+                }
+                classes.lock().unwrap().insert(format!("sharded|{:?}", obs.flags.iter().collect::<BTreeSet<_>>()));
+                if !obs.violations.is_empty() {
+                    stop.store(true, Ordering::Relaxed);
+                }
+                for (k, w) in obs.violations {
+                    rr.violation(&k, &format!("{w} [case {}; steps {:?}]", case.json(), obs.trace), case.json());
+                }
+                if i == 7 {
+                    rr.sample(json!({"case": case.json(), "steps": obs.trace, "flags": obs.flags}));
+                }
+            }
+            Err(e) => {
+                rr.eval(1);
+                stop.store(true, Ordering::Relaxed);
+                let first = e.lines().next().unwrap_or("").to_string();
+                eprintln!("STALL case {}:\n{e}", case.json());
+                rr.violation("c10-mock:stall", &format!("run stalled twice: {first} [case {}]", case.json()), case.json());
+            }
+        }
+    });
+    r.note("sharded_cases", json!(sharded.len()));
     r.note("same_target_cases", json!(same.len()));
     r.note("cases", json!(all.len()));
     r.note("distinct_fault_timing_outcome_classes", json!(classes.lock().unwrap().len()));
@@ -890,6 +1108,7 @@ fn main() {
     r.set_exhaustive(r.counters.get("cases_skipped_after_first_violation") == 0);
     r.set_rule("runs in which at least one in-flight request was failed by the dying connection (distinct (idempotence pattern, answered prefix, fault, timing) tuples)");
     r.assume("client-internal task scheduling is whatever the OS produces (engine E-MOCK); whether the bytes written before an RST are still read by the client is the kernel's choice, so a completely answered request may complete Ok or fail");
+    r.assume("sharded part: refills are parked at accept; 'the pool evicted the dead connections' is inferred from as many replacement connections pending as connections were reset; a non-panic error is retried up to 3 times before it counts (a not-yet-evicted connection would be the harness's timing, not a defect)");
     r.assume("same-target part: which connection of a pool of 2 carries request 0 is the driver's random choice (4 / 10 repetitions; counters victim_is_the_older/younger_pool_connection); the policy's first decision is held until the pool's replacement connection reached the mock, so the dead connection is no longer offered by the pool when the retry picks a connection");
     r.assume("no client-side request timeout; default retry policy, default load balancing (token-aware, plan [A, B]); pool of one connection per node; all 2^k idempotence patterns per k (quick, k = 3: the 4 patterns FFF, TTT, TFT, FTF); thorough also answers the LAST j requests and also makes A the contact point / control-connection node; the before-timing is repeated 3 (quick) / 8 (thorough) times because its outcome depends on the client's own race (sampled)");
     if classes.lock().unwrap().len() < 4 && r.violation_count() == 0 {
